@@ -116,8 +116,9 @@ def isoformat(dt: datetime.date | datetime.time | datetime.timedelta) -> str:
     return _isoformat_duration(dt)
 
 
-@compat.lru_cache(maxsize=100_000)
 def _isoformat_duration(dt: datetime.timedelta) -> str:
+    # Not memoized either: a `pendulum.Duration` of one month and `timedelta(days=30)`
+    # compare (and hash) equal but render as "P1MT" and "P30DT".
     dur: pendulum.Duration = (
         dt
         if isinstance(dt, pendulum.Duration)
